@@ -446,6 +446,22 @@ def dict_creation(chk, thorough):
         except Exception as e:  # noqa: BLE001
             acc = False
             err = type(e).__name__
+        # second road to the same constructor: an EmptyTensorDict (a subclass of every dictionary type) filled
+        # with the one in-place operation that is not blocked, |=, as the library's own _union does
+        if pairs and kind != 0:
+            try:
+                e = KCLS[0]({})
+                e |= d
+                KCLS[kind](e)
+                acc2 = True
+            except Exception:  # noqa: BLE001
+                acc2 = False
+            if acc2 != acc:
+                chk.violation(
+                    f"C14 dictionary creation: type {kind} with (key shape, value shape) {pairs} is "
+                    f"{'accepted' if acc2 else 'rejected'} when built from an EmptyTensorDict filled with |= but "
+                    f"{'accepted' if acc else 'rejected'} when built from a plain dict",
+                    {"kind": "c14-dict", "dict_kind": kind, "pairs": pairs, "via": "ior"})
         chk.count({"dict_kind": kind, "pairs": str(pairs)}, nontrivial=True)
         chk.cov["traces_validated_against_impl"] += 1
         if acc != bool(m):
@@ -482,6 +498,18 @@ def dict_creation(chk, thorough):
                               {"kind": "c14-mut", "dict_kind": kind, "mutator": name})
 
 
+# terms that are well-formed and whose members each return a valid dictionary, but whose UNION is ill-typed
+# (Jacobians with different numbers of rows): the result must be re-validated, i.e. the application raises
+CORPUS3 = [
+    ("Conj", (("Stack", (("Init", (0,)),)), ("Stack", (("Init", (1,)), ("Init", (1,)))))),
+    ("Conj", (("Stack", (("Init", (0,)), ("Init", (0,)), ("Init", (0,)))), ("Stack", (("Init", (2,)),)))),
+    ("Conj", (("Comp", ("Diag", (0,)), ("Select", (0,), (0, 1, 2))),
+              ("Comp", ("Diag", (1, 2)), ("Select", (1, 2), (0, 1, 2))))),
+    ("Conj", (("Comp", ("Diag", (2,)), ("Select", (2,), (0, 2))), ("Comp", ("Diag", (0,)), ("Select", (0,), (0, 2))))),
+    ("Conj", (("Stack", (("Init", (0,)),)), ("Stack", (("Init", (1,)),)), ("Stack", (("Init", (2,)), ("Init", (2,)))))),
+]
+
+
 def run(chk):
     rng = random.Random(1400 + chk.seed)
     thorough = chk.tier == "thorough"
@@ -494,6 +522,8 @@ def run(chk):
         "admissible dictionary type and to wrong key sets; dictionary creation over all "
         "(type, key shape, value shape); mutators")
     chk.cov["exhaustive"] = True
+    run_terms(chk, 3, CORPUS3, "corpus")
+    chk.notes["corpus_terms_jointly_ill_typed"] = len(CORPUS3)
     t2 = depth2(2)
     n_acc = run_terms(chk, 2, t2, "k2")
     chk.notes["terms_2keys_depth2"] = len(t2)
